@@ -431,7 +431,12 @@ func vErrClass(err error) string {
 	if len(s) > 80 {
 		s = s[:80]
 	}
-	return "err:other:" + s
+	return "err:other:" + strings.Map(func(c rune) rune {
+		if c == ' ' || c == '|' || c == '\n' || c == '\t' {
+			return '_'
+		}
+		return c
+	}, s)
 }
 
 func (w *vWorld) observe(cls string, now int64) string {
@@ -548,6 +553,12 @@ func vRecover(f func() error) (cls string) {
 			if len(cls) > 100 {
 				cls = cls[:100]
 			}
+			cls = strings.Map(func(c rune) rune {
+				if c == ' ' || c == '|' || c == '\n' || c == '\t' {
+					return '_'
+				}
+				return c
+			}, cls)
 		}
 	}()
 	return vErrClass(f())
@@ -982,10 +993,11 @@ func TestVerifC16(t *testing.T) {
 	if err := r.engC.Start(); err != nil {
 		t.Fatal(err)
 	}
-	// the gate between the two reads of sqlStore.get: after the SELECT on discovery_service that get() issues on the
-	// server DB (and only while a gated poll is running)
+	// the gate between the two reads of sqlStore.get: after the FIRST SELECT (service record or rows, whichever the source
+	// reads first) that get() issues on the server DB while a gated poll is running
 	err = r.engS.GetSQLDatabase().Callback().Query().After("gorm:after_query").Register("verif:gate", func(tx *gorm.DB) {
-		if r.w != nil && r.w.gate != nil && tx.Statement != nil && tx.Statement.Table == "discovery_service" {
+		if r.w != nil && r.w.gate != nil && tx.Statement != nil &&
+			(tx.Statement.Table == "discovery_service" || tx.Statement.Table == "discovery_presentation") {
 			g := r.w.gate
 			r.w.gate = nil
 			g()
